@@ -29,7 +29,8 @@ Print Assumptions C07_sorted_is_monotone.
     what it writes is the sorted group-by aggregate of all input records *)
 Theorem C07_merger_exact : forall (V : Type) (agg : list V -> V) (n : nat) (inputs : list (mcool V)) (buf : Z),
   inputs <> [] -> (1 <= n)%nat -> Forall (ValidIn n) inputs -> 0 <= buf ->
-  exists eps, cooler_merger agg inputs buf = Ok eps /              concat eps = groupby_agg agg (allpx inputs) /\ Forall (fun e => e <> []) eps.
+  exists eps, cooler_merger agg inputs buf = Ok eps /\
+    concat eps = groupby_agg agg (allpx inputs) /\ Forall (fun e => e <> []) eps.
 Proof. intros V. exact (@merger_exact V). Qed.
 Print Assumptions C07_merger_exact.
 
@@ -37,7 +38,10 @@ Print Assumptions C07_merger_exact.
     requested aggregate of exactly that pixel's values over the inputs (in input order) *)
 Theorem C07_merger_pixelwise : forall (V : Type) (agg : list V -> V) (n : nat) (inputs : list (mcool V)) (buf : Z),
   inputs <> [] -> (1 <= n)%nat -> Forall (ValidIn n) inputs -> 0 <= buf ->
-  exists out, merged_px agg inputs buf = Ok out /    StronglySorted klt (map fst out) /    (forall k, In k (map fst out) <-> In k (map fst (allpx inputs))) /    (forall k v, In (k, v) out -> v = agg (vals (allpx inputs) k)).
+  exists out, merged_px agg inputs buf = Ok out /\
+    StronglySorted klt (map fst out) /\
+    (forall k, In k (map fst out) <-> In k (map fst (allpx inputs))) /\
+    (forall k v, In (k, v) out -> v = agg (vals (allpx inputs) k)).
 Proof. intros V. exact (@merger_pixelwise V). Qed.
 Print Assumptions C07_merger_pixelwise.
 
@@ -45,7 +49,9 @@ Print Assumptions C07_merger_pixelwise.
     is the sum of the input totals *)
 Theorem C07_merger_canon : forall (n : nat) (inputs : list (mcool Z)) (buf : Z),
   inputs <> [] -> (1 <= n)%nat -> Forall (ValidIn n) inputs -> 0 <= buf ->
-  exists out, merged_px sumZ inputs buf = Ok out /    Canon (allpx inputs) out /\ out = aggregate (allpx inputs) /    total out = sumZ (map (fun c => total (mc_px c)) inputs).
+  exists out, merged_px sumZ inputs buf = Ok out /\
+    Canon (allpx inputs) out /\ out = aggregate (allpx inputs) /\
+    total out = sumZ (map (fun c => total (mc_px c)) inputs).
 Proof. exact merger_canon. Qed.
 Print Assumptions C07_merger_canon.
 
@@ -67,7 +73,8 @@ Print Assumptions C07_order_independent.
 Theorem C07_merge_assoc : forall (n : nat) (xs ys : list (mcool Z)) (b1 b2 b3 : Z),
   xs <> [] -> (1 <= n)%nat -> Forall (ValidIn n) xs -> Forall (ValidIn n) ys ->
   0 <= b1 -> 0 <= b2 -> 0 <= b3 ->
-  exists m, merged_px sumZ xs b1 = Ok m /    merged_px sumZ (mk_cool n m :: ys) b2 = merged_px sumZ (xs ++ ys) b3.
+  exists m, merged_px sumZ xs b1 = Ok m /\
+    merged_px sumZ (mk_cool n m :: ys) b2 = merged_px sumZ (xs ++ ys) b3.
 Proof. exact merge_assoc. Qed.
 Print Assumptions C07_merge_assoc.
 
@@ -89,5 +96,7 @@ Proof. vm_compute. repeat split; reflexivity. Qed.
 Example ex_C07_merge :
   let a := mk_cool 4 [((1,1),2); ((1,2),3); ((2,2),1); ((3,3),4)] in
   let b := mk_cool 4 [((0,1),5); ((1,2),7)] in
-  mc_off a = [0;0;2;3;4] /  merged_px sumZ [a; b] 1 = Ok [((0,1),5); ((1,1),2); ((1,2),10); ((2,2),1); ((3,3),4)] /  merged_px sumZ [b; a] 6 = merged_px sumZ [a; b] 1.
+  mc_off a = [0;0;2;3;4] /\
+    merged_px sumZ [a; b] 1 = Ok [((0,1),5); ((1,1),2); ((1,2),10); ((2,2),1); ((3,3),4)] /\
+    merged_px sumZ [b; a] 6 = merged_px sumZ [a; b] 1.
 Proof. vm_compute. repeat split; reflexivity. Qed.
